@@ -23,6 +23,7 @@ def parseKV (cfg : Cfg × Bool) (tok : String) : Option (Cfg × Bool) :=
   | ["think", v] => v.toNat?.map fun x => ({ cfg.1 with think := x }, cfg.2)
   | ["buf", v] => v.toNat?.map fun x => ({ cfg.1 with bufsize := x }, cfg.2)
   | ["https", v] => some ({ cfg.1 with https := parseBool v }, cfg.2)
+  | ["early", v] => some ({ cfg.1 with early := parseBool v }, cfg.2)
   | ["x100", v] => some ({ cfg.1 with expect100 := parseBool v }, cfg.2)
   | ["c0", v] => v.toNat?.map fun x => ({ cfg.1 with c0 := x }, cfg.2)
   | ["cd", v] => some ({ cfg.1 with closeDelim := parseBool v }, cfg.2)
